@@ -309,9 +309,14 @@ where
     if n_chains >= 2 {
         let j = g.below(n_chains);
         let mut inits2 = inits.clone();
+        // either a nudge, or the row is sent far out where its log-density is astronomically
+        // larger in magnitude than the others' (anything pooled over the batch then loses them)
+        let far = g.chance(0.5);
+        let big = if beps > 1e-10 { g.log_uniform(1e3, 1e6) } else { g.log_uniform(1e6, 1e12) };
         for v in inits2[j].iter_mut() {
-            *v = *v + T::of(0.37 * scale);
+            *v = if far { T::of(scale * big * (0.5 + g.f64()) * if g.bool() { 1.0 } else { -1.0 }) } else { *v + T::of(0.37 * scale) };
         }
+        rep.count(if far { "row_independence_neighbour_sent_far_out" } else { "row_independence_neighbour_nudged" });
         let r = guard(|| {
             let mut a = HMC::<T, B, G>::new(target.clone(), inits.clone(), step, l).set_seed(seed);
             let mut b = HMC::<T, B, G>::new(target.clone(), inits2.clone(), step, l).set_seed(seed);
